@@ -77,8 +77,20 @@ def r1_r2(ck, cx):
                 nd += 1
                 cf = [t for i, t in fp.truths.get('checkFrame', []) if i < d]
                 gate_cf = bool(cf) and cf[-1] is True
-                ck.ob('R1', f.qn, 'delivery dominated by checkFrame() == True', gate_cf, detail='delivery-without-checkFrame', loc=cx.floc(f),
-                      message='%s framer can deliver a message on a path where checkFrame() did not succeed' % kind)
+                # the conditions (outside the root function) under which the unchecked delivery happens are part of the key,
+                # so that a different / wider unchecked path is a different finding
+                side = []
+                if not gate_cf:
+                    from ..sym import constraints as _cons, cstr as _cstr
+                    for e2 in fp.path.ev[:d]:
+                        if e2.kind == 'cond' and e2.frame.fid != 0 and ('function_code' in U(e2._sub) or 'result' in U(e2._sub)):
+                            try:
+                                side += [_cstr(c) for c in _cons(e2._sub, e2.a, nz)]
+                            except Exception:
+                                side.append('%s=%s' % (U(e2._sub), e2.a))
+                ck.ob('R1', f.qn, 'delivery dominated by checkFrame() == True', gate_cf,
+                      detail='delivery-without-checkFrame' + (' [%s]' % '; '.join(sorted(set(side))) if side else ''), loc=cx.floc(f),
+                      message='%s framer can deliver a message on a path where checkFrame() did not succeed (when %s)' % (kind, '; '.join(sorted(set(side))) or 'always'))
                 if kind in CHECK:
                     integ = [x for x in fp.integrity if x[0] < d and x[1] == CHECK[kind]]
                     ok = bool(integ) and integ[-1][2] is True
